@@ -4,7 +4,7 @@ package main
 //
 // Observations: Close returned, ErrorChan closed, goroutines left, Stop returned and - the subject - "leak": after
 // the connection has been closed, ErrorChan closed and every goroutine gone, is the client's timer still being
-// re-armed?  The client's `timer` field is read (under the client's own timerMutex) three times 0.6 s (= 10
+// re-armed?  The client's `timer` field is read (under the client's own timerMutex) three times 0.6 - 0.75 s (>= 5
 // periods) apart: a chain that is alive replaces the timer every period.  Finally the timer is stopped by the
 // driver (so that a leaked chain does not run on into the next case); Stop() == true says it was still armed.
 //
@@ -26,7 +26,14 @@ import (
 	"verifharness/hs"
 )
 
-const kaPeriod = 60 * time.Millisecond
+// the period: short where a timer tick is awaited and held; longer in the free schedules, where each tick is a small
+// window for the (genuine, recorded) race of F-C15-katimer to happen by itself
+func kaPeriodOf(hold bool) time.Duration {
+	if hold {
+		return 60 * time.Millisecond
+	}
+	return 150 * time.Millisecond
+}
 
 func (r *caseRun) runTimer(w *lifeRow, lr *lifeReport) (map[string]any, string) {
 	r.base = map[int]bool{}
@@ -34,6 +41,11 @@ func (r *caseRun) runTimer(w *lifeRow, lr *lifeReport) (map[string]any, string) 
 		r.base[id] = true
 	}
 	hold := w.Hold == "tick"
+	kaPeriod := kaPeriodOf(hold)
+	gap := 10 * kaPeriod
+	if gap > 750*time.Millisecond {
+		gap = 750 * time.Millisecond
+	}
 	var enqN, enqAfterStop atomic.Int32
 	var stopSeen atomic.Bool
 	gate := make(chan struct{})
@@ -208,7 +220,7 @@ func (r *caseRun) runTimer(w *lifeRow, lr *lifeReport) (map[string]any, string) 
 	keep := []*time.Timer{read()} // kept reachable: a new timer cannot reuse the address of an old one
 	changes := 0
 	for i := 0; i < 2; i++ {
-		time.Sleep(10 * kaPeriod)
+		time.Sleep(gap)
 		t := read()
 		if t != keep[len(keep)-1] {
 			changes++
@@ -234,7 +246,7 @@ func (r *caseRun) runTimer(w *lifeRow, lr *lifeReport) (map[string]any, string) 
 	obs["leak"] = leak
 	if leak {
 		r.note("keep-alive timer after shutdown: replaced %d times in %.1fs, armed at the end=%v (period %s)", changes,
-			(20 * kaPeriod).Seconds(), armed, kaPeriod)
+			(2 * gap).Seconds(), armed, kaPeriod)
 		lifeStats["timer cases with a timer alive after shutdown"]++
 	}
 	if n := enqAfterStop.Load(); n > 0 {
